@@ -30,6 +30,8 @@ STMTS = [
     'x = f"yield"', 'x = f"{y}return"', 'x = f"await" f"break{y}continue"', 'f(a := 1, b)', 'class D(a := 1, b): pass',
     'f(a, b := 1, *c, d=2)', '"doc" "more"\nfrom __future__ import annotations', 'from __future__ import barry_as_FLUFL',
     'from __future__ import annotations, division', "'''doc'''\nfrom __future__ import division",
+    'from __future__ import division as dv', 'from __future__ import (annotations as an, division)',
+    'from __future__ import generator_stop as gs, unicode_literals',
 ]
 
 FRAME = {
